@@ -5,6 +5,7 @@ import (
 	"encoding/json"
 	"errors"
 	"fmt"
+	"math"
 	"os"
 	"strings"
 	"time"
@@ -46,7 +47,12 @@ func openHist(filename string) (list []Item, err error) {
 		return list, fmt.Errorf("%w: %s", errOpenHistoryFile, err.Error())
 	}
 
+	// History entries can be long (pasted scripts, multiline commands):
+	// do not stop reading the file at the first one above the default
+	// token size of the scanner (64 KiB).
 	scanner := bufio.NewScanner(file)
+	scanner.Buffer(nil, math.MaxInt32)
+
 	for scanner.Scan() {
 		var item Item
 
